@@ -111,7 +111,7 @@ def stride_nway_specs(rnd):
     """Specs that push an n-way step through a strided follower (the F3
     shape) and halos through the printer."""
     from ..gen import affine as GA
-    strat = rnd.choice(["S2", "S3", "S4", "S7", "S7"])
+    strat = rnd.choice(["S2", "S3", "S4", "S5", "S7", "S7"])
     spec, ext, info = GA.gen_affine(rnd, strat)
     parts = (spec.partitioning or {}).get("O") or {}
     if strat != "S7" or rnd.random() < 0.5:
@@ -154,6 +154,21 @@ def shard(tier, seed, shard, nshards):
             rnd = random.Random("%s-nway-%d-%d-%d" % (ID, seed, shard, i))
             spec, ext = stride_nway_specs(rnd)
             cls, mode = "stride-nway", "plain"
+        elif i % 31 == 30:
+            # coordinate-style stamps on flattened ranks: only the printer is judged here
+            from ..gen import einsum as GE, mapping as GM, spacetime as GS
+            rnd = random.Random("%s-flatcoord-%d-%d-%d" % (ID, seed, shard, i))
+            spec = None
+            for _ in range(30):
+                b, info = GE.gen_plain(rnd, products_only=True, allow_take=False, max_ranks=3)
+                f = GM.add_flatten(rnd, b, info)
+                if f is not None:
+                    spec = GS.add_spacetime(rnd, f, all_stamped=True, flat_coord=True)
+                    if spec is not None:
+                        break
+            if spec is None:
+                continue
+            cls, mode, ext = "flat-coord-stamp", "plain", None
         else:
             it = corpus.item(ID, seed, shard, i)
             if it is None:
